@@ -1,6 +1,9 @@
 import EpdVerif.Ctrl.Uc
 import EpdVerif.Lemmas.UcFill
 import EpdVerif.Drivers.Epd4in2
+import EpdVerif.Drivers.Epd7in5b_v2
+import EpdVerif.Drivers.Epd2in9b_v4
+import EpdVerif.Props.C06
 /-!
 # C06 (i), (iv) for SYMBOLIC windows — the window the controller decodes is the requested one
 
@@ -11,7 +14,10 @@ data…, PartialOut` with no stray bytes, the window snapshot taken by the simul
 arrives (`Episode.win`, what the run-time oracle's clause (i) reads) is
 `(x, y, x + w - 1, y + h - 1)`, and the controller is left outside partial mode.
 
-epd4in2: proved for `x < 256`; for `x ≥ 256` the statement is FALSE of the code (known finding
+epd7in5b_v2 (`update_partial_frame2`) and epd2in9b_v4 (`update_partial_frame`; SSD16xx: window
+registers, address counter at the window origin, content, outside, RED plane — all clauses) are proved
+at full strength.  epd4in2: the FULL statement (every window inside the 400-pixel panel) is false of the code; what is
+proved carries the suffix `_partial` and the extra hypothesis `x < 256`; for `x ≥ 256` the statement is FALSE of the code (known finding
 KF-C06-epd4in2: `x & 0xf8` drops bit 8) — `epd4in2_part_window_fails_at_256` is the witness, the
 hypothesis `x < 256` is exactly what the proof forced.
 -/
@@ -51,7 +57,7 @@ theorem uc9_partial_seq (u : Uc) (a a' b b' c c' d d' e : UInt8) (buf : List UIn
     Bool.false_eq_true, false_and, List.head?_cons, Option.map_some]
 
 open Drivers.Epd4in2 in
-theorem epd4in2_part_window (f : Feat) (d : DState) (b : Bytes) (x y w h : Nat)
+theorem epd4in2_part_window_partial (f : Feat) (d : DState) (b : Bytes) (x y w h : Nat)
     (hx : x % 8 = 0) (hw : w % 8 = 0) (hw0 : 0 < w) (hh0 : 0 < h)
     (hxw : x + w ≤ 400) (hyh : y + h ≤ 300) (hx256 : x < 256)
     (u : Uc) (hu : u.asleep = false) (hf : u.winFmt = 9) (h14 : u.has14 = false) :
@@ -108,7 +114,7 @@ theorem epd4in2_pold_blocks (f : Feat) (d : DState) (b : Bytes) (x y w h : Nat) 
 
 open Drivers.Epd4in2 in
 /-- `update_partial_old_frame`: same window, the controller stays in partial mode for `update_partial_new_frame` -/
-theorem epd4in2_pold_window (f : Feat) (d : DState) (b : Bytes) (x y w h : Nat)
+theorem epd4in2_pold_window_partial (f : Feat) (d : DState) (b : Bytes) (x y w h : Nat)
     (hx : x % 8 = 0) (hw : w % 8 = 0) (hw0 : 0 < w) (hh0 : 0 < h)
     (hxw : x + w ≤ 400) (hyh : y + h ≤ 300) (hx256 : x < 256)
     (u : Uc) (hu : u.asleep = false) (hf : u.winFmt = 9) (h14 : u.has14 = false) :
@@ -139,7 +145,7 @@ theorem epd4in2_pclear_blocks (f : Feat) (d : DState) (x y w h : Nat) (hw0 : 0 <
 
 open Drivers.Epd4in2 in
 /-- `clear_partial_frame`: both planes are filled inside the requested window with `w/8*h` bytes each -/
-theorem epd4in2_pclear_window (f : Feat) (d : DState) (x y w h : Nat)
+theorem epd4in2_pclear_window_partial (f : Feat) (d : DState) (x y w h : Nat)
     (hx : x % 8 = 0) (hw : w % 8 = 0) (hw0 : 0 < w) (hh0 : 0 < h)
     (hxw : x + w ≤ 400) (hyh : y + h ≤ 300) (hx256 : x < 256)
     (u : Uc) (hu : u.asleep = false) (hf : u.winFmt = 9) (h14 : u.has14 = false) :
@@ -178,7 +184,7 @@ open Drivers.Epd4in2 in
     `y + k / (w/8)`, byte column `x/8 + k % (w/8)` of the new-image plane, all `w/8*h` bytes are stored
     exactly once (`count = stored = w/8*h`), every cell outside the window and the whole old-image plane
     are unchanged -/
-theorem epd4in2_part_content (f : Feat) (d : DState) (b : Bytes) (x y w h : Nat)
+theorem epd4in2_part_content_partial (f : Feat) (d : DState) (b : Bytes) (x y w h : Nat)
     (hx : x % 8 = 0) (hw : w % 8 = 0) (hw0 : 0 < w) (hh0 : 0 < h)
     (hxw : x + w ≤ 400) (hyh : y + h ≤ 300) (hx256 : x < 256) (hl : b.length = w / 8 * h)
     (u : Uc) (hu : u.asleep = false) (hf : u.winFmt = 9) (h14 : u.has14 = false)
@@ -207,5 +213,137 @@ theorem epd4in2_part_content (f : Feat) (d : DState) (b : Bytes) (x y w h : Nat)
     rw [hb]
   rw [hu', k.1, k.2.1, k.2.2, st.1]
   exact ⟨fun k hk => st.2.2.1 k hk, st.2.2.2, rfl, by rw [hl]⟩
+
+/-! ## epd7in5b_v2 -/
+
+theorem hr_word : ∀ q, q < 256 → Uc.word (u8 q >>> 5) (u8 (q <<< 3)) = q * 8 := by decide +kernel
+theorem hr_word_end : ∀ e, e < 256 → Uc.word (u8 e >>> 5) (u8 (e <<< 3) ||| 0b111) = e * 8 + 7 := by decide +kernel
+
+/-- both planes inside the window, refresh, leave partial mode (7in5b_v2 `update_partial_frame2`) -/
+theorem uc9_partial_seq_two (u : Uc) (a a' b b' c c' d d' e : UInt8) (b1 b2 : List UInt8)
+    (hu : u.asleep = false) (hf : u.winFmt = 9) (h14 : u.has14 = false) :
+    ((u.run [Blk.c 0x91 [], .c 0x90 [a, a', b, b', c, c', d, d', e], .c 0x10 b1, .c 0x13 b2, .c 0x12 [], .c 0x92 []]).epis.take 2).map
+        (fun ep => (ep.plane, ep.win))
+      = [(1, word a a' / 8 * 8, word c c', word b b' / 8 * 8 + 7, word d d'), (0, word a a' / 8 * 8, word c c', word b b' / 8 * 8 + 7, word d d')] ∧
+    (u.run [Blk.c 0x91 [], .c 0x90 [a, a', b, b', c, c', d, d', e], .c 0x10 b1, .c 0x13 b2, .c 0x12 [], .c 0x92 []]).partialOn = false := by
+  simp (config := {decide := true}) only [Uc.run, List.foldl, Uc.feed, Uc.regStep, hu, hf, h14, Uc.dtm, ↓reduceIte,
+    Bool.false_eq_true, List.take, List.map, and_self]
+
+open Drivers.Epd7in5b_v2 in
+theorem epd7in5b_v2_part2_blocks (f : Feat) (d : DState) (b : Bytes) (x y w h : Nat) (hw0 : 8 ≤ w) (hh0 : 0 < h) :
+    blocksOf ((prog f d (.part2 b x y w h)).getD []) =
+      [.c 0x91 [], .c 0x90 [u8 (x / 8) >>> 5, u8 ((x / 8) <<< 3), u8 ((x + w) / 8 - 1) >>> 5, u8 (((x + w) / 8 - 1) <<< 3) ||| 0b111,
+         shr8 y 8, u8 y, shr8 (y + h - 1) 8, u8 (y + h - 1), 0x01],
+       .c 0x10 (b.take (b.length / 2) ++ []), .c 0x13 (b.drop (b.length / 2) ++ []), .c 0x12 [], .c 0x92 []] := by
+  have a1 : decide ((x + w) / 8 ≥ 1) = true := by simp only [decide_eq_true_eq]; omega
+  have a2 : decide (y + h ≥ 1) = true := by simp only [decide_eq_true_eq]; omega
+  simp only [prog, updatePartial2, assertA, a1, a2, Option.getD_some, if_true]
+  rfl
+
+open Drivers.Epd7in5b_v2 in
+/-- **epd7in5b_v2 `update_partial_frame2`, EVERY byte-aligned window inside the 800 x 480 panel** (full
+    strength: no restriction on `x`): both data blocks arrive while the controller's window is
+    `(x, y, x + w - 1, y + h - 1)`, B/W half to DTM1 then chromatic half to DTM2, and partial mode is left -/
+theorem epd7in5b_v2_part2_window (f : Feat) (d : DState) (b : Bytes) (x y w h : Nat)
+    (hx : x % 8 = 0) (hw : w % 8 = 0) (hw0 : 0 < w) (hh0 : 0 < h)
+    (hxw : x + w ≤ 800) (hyh : y + h ≤ 480)
+    (u : Uc) (hu : u.asleep = false) (hf : u.winFmt = 9) (h14 : u.has14 = false) :
+    ((u.run (blocksOf ((prog f d (.part2 b x y w h)).getD []))).epis.take 2).map (fun ep => (ep.plane, ep.win))
+      = [(1, x, y, x + w - 1, y + h - 1), (0, x, y, x + w - 1, y + h - 1)] ∧
+    (u.run (blocksOf ((prog f d (.part2 b x y w h)).getD []))).partialOn = false := by
+  rw [epd7in5b_v2_part2_blocks f d b x y w h (by omega) hh0]
+  have k := uc9_partial_seq_two u (u8 (x / 8) >>> 5) (u8 ((x / 8) <<< 3)) (u8 ((x + w) / 8 - 1) >>> 5)
+    (u8 (((x + w) / 8 - 1) <<< 3) ||| 0b111) (shr8 y 8) (u8 y) (shr8 (y + h - 1) 8) (u8 (y + h - 1)) 0x01
+    (b.take (b.length / 2) ++ []) (b.drop (b.length / 2) ++ []) hu hf h14
+  rw [hr_word (x / 8) (by omega), hr_word_end ((x + w) / 8 - 1) (by omega), word_split y (by omega),
+    word_split (y + h - 1) (by omega)] at k
+  have e1 : x / 8 * 8 / 8 * 8 = x := by omega
+  have e2 : (((x + w) / 8 - 1) * 8 + 7) / 8 * 8 + 7 = x + w - 1 := by omega
+  rw [e1, e2] at k
+  exact k
+
+example : (392 % 8 = 0 ∧ 408 % 8 = 0 ∧ 392 + 408 ≤ 800 ∧ 470 + 10 ≤ 480) := by decide
+
+/-! ## SSD16xx: epd2in9b_v4 -/
+
+def _root_.EpdVerif.Ssd.run (s : Ssd) (bs : List Blk) : Ssd := bs.foldl Ssd.feed s
+
+/-- the four addressing blocks of an SSD16xx (byte-unit X) partial update, from ANY awake state -/
+theorem ssd_addr_seq (s : Ssd) (a b : UInt8) (c c' d d' : UInt8) (hu : s.asleep = false) (hx : s.xPix = false) :
+    let s' := s.run [Blk.c 0x44 [a, b], .c 0x45 [c, c', d, d'], .c 0x4E [a], .c 0x4F [c, c']]
+    s'.xs = a.toNat % 64 ∧ s'.xe = b.toNat % 64 ∧ s'.ys = Ssd.word c c' % 1024 ∧ s'.ye = Ssd.word d d' % 1024 ∧
+    s'.cx = a.toNat % 64 ∧ s'.cy = Ssd.word c c' % 1024 ∧
+    s'.asleep = false ∧ s'.entry = s.entry ∧ s'.stride = s.stride ∧ s'.rows = s.rows ∧ s'.bw = s.bw ∧ s'.red = s.red ∧
+    s'.epis = s.epis := by
+  simp (config := {decide := true}) only [Ssd.run, List.foldl, Ssd.feed, Ssd.regStep, hu, hx, ↓reduceIte,
+    Bool.false_eq_true, and_self]
+
+theorem ssd_word_split (n : Nat) (h : n < 65536) : Ssd.word (u8 n) (shr8 n 8) = n := by
+  simp only [Ssd.word, shr8, u8_toNat, Nat.shiftRight_eq_div_pow]
+  omega
+
+open Drivers.Epd2in9b_v4 in
+theorem epd2in9b_v4_part_blocks (f : Feat) (d : DState) (b : Bytes) (x y w h : Nat)
+    (hx : x % 8 = 0) (hw : w % 8 = 0) (hw0 : 0 < w) (hh0 : 0 < h) :
+    blocksOf ((prog f d (.part b x y w h)).getD []) =
+      [.c 0x44 [u8 (x / 8), u8 ((x + w) / 8 - 1)], .c 0x45 [u8 y, shr8 y 8, u8 (y + h - 1), shr8 (y + h - 1) 8],
+       .c 0x4E [u8 (x / 8)], .c 0x4F [u8 y, shr8 y 8], .c 0x24 (b ++ [])] := by
+  have h2 : (x + w) % 8 = 0 := by omega
+  have a0 : (w % 8 == 0) = true := by simp [hw]
+  have a1 : decide ((x + w) / 8 ≥ 1) = true := by simp only [decide_eq_true_eq]; omega
+  have a2 : decide (y + h ≥ 1) = true := by simp only [decide_eq_true_eq]; omega
+  simp only [prog, updatePartialFrame, hx, h2, assertA, a0, a1, a2, Option.getD_some, if_true,
+    Nat.add_zero, beq_self_eq_true, Bool.or_true, Bool.true_or]
+  rfl
+
+open Drivers.Epd2in9b_v4 in
+/-- **epd2in9b_v4 `update_partial_frame`, EVERY byte-aligned window inside the 128 x 296 panel, every
+    buffer of the window's size, from ANY awake controller state in data-entry mode 3** (full strength):
+    window registers, counter at the window origin, the window filled exactly once row by row,
+    everything outside it and the whole RED plane unchanged -/
+theorem epd2in9b_v4_part_window (f : Feat) (d : DState) (b : Bytes) (x y w h : Nat)
+    (hx : x % 8 = 0) (hw : w % 8 = 0) (hw0 : 0 < w) (hh0 : 0 < h) (hxw : x + w ≤ 128) (hyh : y + h ≤ 296)
+    (hl : b.length = w / 8 * h)
+    (s : Ssd) (hu : s.asleep = false) (hxp : s.xPix = false) (h3 : s.entry = 3) (hst : s.stride = 22) (hro : s.rows = 296)
+    (hbw : s.bw.size = 22 * 296) (hred : s.red.size = 22 * 296) :
+    let s' := s.run (blocksOf ((prog f d (.part b x y w h)).getD []))
+    (∀ (k : Nat) (hk : k < b.length), s'.bw[(y + k / (w / 8)) * 22 + (x / 8 + k % (w / 8))]? = some b[k]) ∧
+    (∀ j : Nat, (∀ k, k < b.length → (y + k / (w / 8)) * 22 + (x / 8 + k % (w / 8)) ≠ j) → s'.bw[j]? = s.bw[j]?) ∧
+    s'.red = s.red ∧
+    s'.epis.head? = some (Episode.mk 0 (w / 8 * h) (w / 8 * h) true false (x, y, x + w - 1, y + h - 1)) := by
+  intro s'
+  have hb := epd2in9b_v4_part_blocks f d b x y w h hx hw hw0 hh0
+  rw [List.append_nil] at hb
+  have q := ssd_addr_seq s (u8 (x / 8)) (u8 ((x + w) / 8 - 1)) (u8 y) (shr8 y 8) (u8 (y + h - 1)) (shr8 (y + h - 1) 8) hu hxp
+  simp only [] at q
+  generalize hs1 : s.run [Blk.c 0x44 [u8 (x / 8), u8 ((x + w) / 8 - 1)], .c 0x45 [u8 y, shr8 y 8, u8 (y + h - 1), shr8 (y + h - 1) 8],
+       .c 0x4E [u8 (x / 8)], .c 0x4F [u8 y, shr8 y 8]] = s1 at q
+  obtain ⟨qxs, qxe, qys, qye, qcx, qcy, qa, qe, qst, qro, qbw, qred, qep⟩ := q
+  rw [ssd_word_split y (by omega)] at qys qcy
+  rw [ssd_word_split (y + h - 1) (by omega)] at qye
+  simp only [u8_toNat] at qxs qxe qcx
+  have v1 : x / 8 % 256 % 64 = x / 8 := by omega
+  have v2 : ((x + w) / 8 - 1) % 256 % 64 = (x + w) / 8 - 1 := by omega
+  have v3 : y % 1024 = y := by omega
+  have v4 : (y + h - 1) % 1024 = y + h - 1 := by omega
+  rw [v1] at qxs qcx; rw [v2] at qxe; rw [v3] at qys qcy; rw [v4] at qye
+  have es' : s' = s1.feed (.c 0x24 b) := by
+    show s.run _ = _
+    rw [hb, ← hs1]
+    simp only [Ssd.run, List.foldl]
+  have wb : s1.xe - s1.xs + 1 = w / 8 := by rw [qxe, qxs]; omega
+  have wh : s1.ye - s1.ys + 1 = h := by rw [qye, qys]; omega
+  have key := ssd_partial_window s1 b qa (by rw [qe, h3]) (by rw [qxs, qxe]; omega) (by rw [qys, qye]; omega)
+    (by rw [qxe, qst, hst]; omega) (by rw [qye, qro, hro]; omega) (by rw [qbw, qst, qro, hst, hro]; exact hbw)
+    (by rw [qred, qst, qro, hst, hro]; exact hred) (by rw [qcx, qxs]) (by rw [qcy, qys]) (by rw [wb, wh]; exact hl)
+  rw [wb, qys, qxs, qst, hst, qbw, qred, qxe, qye] at key
+  rw [es']
+  refine ⟨key.1, key.2.1, key.2.2.1, ?_⟩
+  rw [key.2.2.2, hl]
+  have e1 : x / 8 * 8 = x := by omega
+  have e2 : ((x + w) / 8 - 1) * 8 + 7 = x + w - 1 := by omega
+  rw [e1, e2]
+
+example : (16 % 8 = 0 ∧ 112 % 8 = 0 ∧ 16 + 112 ≤ 128 ∧ 290 + 6 ≤ 296) := by decide
 
 end EpdVerif.Props.C06
